@@ -341,6 +341,8 @@ def execute(case):
         ev['exc'] = type(e).__name__
         return trace
     ref = ev['m'].pop('_desc', None)
+    if case['script'] is None:
+        return trace
     script = [(bytes.fromhex(h), ('10.0.0.%d' % (i + 1), 30000 + i)) for i, (_, h) in enumerate(case['script'])]
     sock.script = script
     sock.owner = udp
@@ -395,6 +397,22 @@ def signature(clause, case, trace, l):
 
 # ------------------------------------------------------------------ spec -> code: construction
 
+def emit_construction(cfg, first):
+    """Gen_Discovery/GBSpec -> list of [glyphs, [[b, dis, lo0, hi0, lo4, hi4], ...]] (lines without quotes:
+    parsed directly, the generic reader of core is too slow for millions of lines)"""
+    r = run_tlc('Gen_Discovery', cfg, workers=1, timeout=1100, heap='2g',
+                env={'DISCOVERY_FIRST': str(first)} if first else None)
+    if r.violated or not r.ok:
+        raise MachineryError(f'behaviour emission Gen_Discovery/{cfg} failed: {r.violated or r.error}\n{r.out[-2000:]}')
+    # TLC prints <<"BEH", "[[..]]">> on one line or wrapped after the tag
+    behs = [json.loads(line[line.index('"[[') + 1:line.rindex('"')]) for line in r.out.splitlines()
+            if line.endswith('>>') and '"[[' in line]
+    if len(behs) != r.distinct:
+        raise MachineryError(f'behaviour emission Gen_Discovery/{cfg}: {len(behs)} lines for {r.distinct} states')
+    r.out = ''
+    return r, behs
+
+
 def _pad_eq(target):
     """equipment id such that the measured overhead is `target`"""
     n = target - overhead('')
@@ -440,17 +458,22 @@ def _build_clause(obs_en, r, g, dis, lo, hi):
 
 def _replay_build(item):
     idx, beh, seed, modes = item
-    g = beh['g']
+    g, exp = beh
     bad = {}
     n = 0
-    if len(g) > 6:
-        modes = modes[:1]                 # the two longest layers only with the patched constant
-    for b, dis, lo0, hi0, lo4, hi4 in beh['exp']:
+    light = len(g) > 6                    # the two longest layers: patched constant only, constructor only
+    if light:
+        modes = modes[:1]
+    if len(g) > 7:
+        exp = [e for k, e in enumerate(exp) if (k + idx) % 3 == 0]      # every third budget, rotating
+    for b, dis, lo0, hi0, lo4, hi4 in exp:
         for mode in modes:
             salt = seed + idx + 7 * b + (0 if mode == 'patched' else 1)
             case = build_case(g, b, mode, salt)
             if case['eq'] is None:
                 continue
+            if light:
+                case['script'] = None         # do not run()
             tr = execute(case)
             n += 1
             e = tr[0]
@@ -489,7 +512,7 @@ def _replay_build(item):
                     bad[key]['count'] += 1
                 else:
                     bad[key] = {'sig': sig, 'case': case, 'trace': tr, 'failed_at': l, 'count': 1,
-                                'allowed': {'b': b, 'may_disable': dis, 'prefix_len': [lo, hi]}}
+                                'allowed': {'b': b, 'may_disable': bool(dis), 'prefix_len': [lo, hi]}}
     return n, list(bad.values())
 
 
@@ -759,13 +782,9 @@ def run(chk):
             for dev, inv in (('disable', 'BuildSound'), ('announce', 'AnnounceBounded'), ('loop', 'Alive'))]
     cfg = 'Gen_Discovery_build_quick.cfg' if quick else 'Gen_Discovery_build_thorough.cfg'
 
-    def shard(first):
-        return emit_behaviours('Gen_Discovery', cfg, maximal_only=False, timeout=1100,
-                               env={'DISCOVERY_FIRST': str(first)} if first else None)
-
     gen_loop = ex.submit(emit_behaviours, 'Gen_Discovery', 'Gen_Discovery_loop_quick.cfg' if quick else
                          'Gen_Discovery_loop_thorough.cfg', maximal_only=False, timeout=600)
-    shards = [ex.submit(shard, f) for f in ([0] if quick else range(1, 7))]
+    shards = [ex.submit(emit_construction, cfg, f) for f in ([0] if quick else range(1, 7))]
     ex.shutdown(wait=False)
 
     # 1 design checks: proposed design holds, each as-implemented deviation is refuted by TLC
@@ -788,7 +807,7 @@ def run(chk):
         chk.add_tlc(r)
         items = []
         for beh in behs:
-            if not beh['g']:
+            if not beh[0]:
                 if seen_empty:
                     continue
                 seen_empty = True
@@ -797,12 +816,12 @@ def run(chk):
         for (idx, beh, _, _), (n, bad) in zip(items, pool_map(_replay_build, items)):
             chk.impl_traces += n
             chk.evaluations += n - 1
-            chk.case(int('7' + ''.join(map(str, beh['g']))), True)
+            chk.case(int('7' + ''.join(map(str, beh[0]))), True)
             for b in bad:
                 for _ in range(b.pop('count')):
                     chk.violation(b['sig'], b)
         if behs:
-            chk.sample({'construction_case': behs[len(behs) // 2]})
+            chk.sample({'construction_case': dict(zip(('glyphs', 'allowed_b_dis_lo0_hi0_lo4_hi4'), behs[len(behs) // 2]))})
         del behs[:]
 
     stage('construction replay')
